@@ -432,6 +432,24 @@ class Check:
                 ok += 1
             else:
                 missing.append(t)
+        if self.tier == 'thorough' and build.ok and os.environ.get('VERIF_DEV_SKIP_LEAN') != '1':
+            # independent re-check of the compiled proofs by the toolchain's leanchecker (replays every declaration through the kernel)
+            mods = sorted(set(re.findall(r'Lessm\.Props\.\w+', checker_cmd)))
+            lk = _lock()
+            t0 = time.time()
+            try:
+                r = subprocess.run(['lake', 'env', 'leanchecker'] + mods, cwd=LEAN, capture_output=True, text=True, timeout=3000)
+                rc, out = r.returncode, (r.stdout + r.stderr)[-600:]
+            except Exception as e:  # noqa
+                rc, out = 99, repr(e)
+            finally:
+                lk.close()
+            self.cov['independent_recheck'] = {'cmd': 'lake env leanchecker ' + ' '.join(mods), 'exit': rc, 'seconds': round(time.time() - t0, 1), 'output_tail': out}
+            if rc != 0:
+                build.ok = False
+                build.log += '\nLEANCHECKER: ' + out
+                ok = 0
+                missing = list(theorems)
         self.cov['discharged'] = ok
         self.cov['checker_cmd'] = checker_cmd
         self.cov['axioms'] = {t: build.axioms.get(t) for t in theorems}
